@@ -328,4 +328,151 @@ theorem sim_setinnerref {s : State} {A : AState} (hr : Rep s A) (a b : Ref) : Si
           · simp [AState.setChain, hsl, AState.setSlot, AState.bump]
           · simp [AState.setChain, hsl, AState.setSlot, AState.bump, e3]
 
+/-! ### updates of one or two slots -/
+
+theorem rootSegs_two (slots : List (Option ASlot)) {i j : Nat} (hij : i ≠ j) (hi : i < slots.length) (hj : j < slots.length)
+    (yi yj : Option ASlot) :
+    (rootSegs ((slots.set i yi).set j yj)).Perm (optSeg yi ++ (optSeg yj ++ rootSegs ((slots.set i none).set j none))) := by
+  have h1 := rootSegs_one (slots.set i yi) j yj (by simpa using hj)
+  have h2 : (slots.set i yi).set j none = (slots.set j none).set i yi := List.set_comm _ _ hij
+  have h3 := rootSegs_one (slots.set j none) i yi (by simpa using hi)
+  have h4 : (slots.set j none).set i none = (slots.set i none).set j none := List.set_comm _ _ (Ne.symm hij)
+  rw [h2] at h1
+  rw [h4] at h3
+  refine h1.trans ((List.Perm.append_left _ h3).trans ?_)
+  rw [← List.append_assoc, ← List.append_assoc]
+  exact List.Perm.append_right _ List.perm_append_comm
+
+theorem heap_out2 {s : State} {A : AState} (hr : Rep s A) {i j : Nat} (hij : i ≠ j) (hi : i < A.slots.length)
+    (hj : j < A.slots.length) :
+    SegRep s.heap (optSeg A.slots[i] ++ (optSeg A.slots[j] ++ rootSegs ((A.slots.set i none).set j none))) := by
+  have := rootSegs_two A.slots hij hi hj A.slots[i] A.slots[j]
+  rw [List.set_getElem_self, List.set_getElem_self] at this
+  exact hr.heap.perm this
+
+theorem Rep.intro1 {s : State} {A : AState} (hr : Rep s A) {i : Nat} (hi : i < A.slots.length) {y : Option ASlot}
+    {s' : State} {A' : AState}
+    (hs1 : s'.slots = s.slots.set i (y.map handleOf)) (hs2 : s'.opts = s.opts)
+    (hA1 : A'.slots = A.slots.set i y) (hA2 : A'.opts = A.opts)
+    (hp : ∀ c, y = some (ASlot.mk .pdu c) → c ≠ [])
+    (hh : SegRep s'.heap (optSeg y ++ rootSegs (A.slots.set i none))) (hn : A'.next = s'.heap.cells.length) :
+    Rep s' A' := by
+  refine ⟨?_, ?_, ?_, hn, ?_⟩
+  · rw [hs1, hA1, List.map_set, ← hr.slots]
+  · show PduNe A'.slots
+    rw [hA1]; exact PduNe.set hr.pdu_ne i _ hp
+  · rw [hA1]; exact heap_in1 hi hh
+  · rw [hs2, hA2]; exact hr.opts
+
+theorem Rep.intro2 {s : State} {A : AState} (hr : Rep s A) {i j : Nat} (hij : i ≠ j) (hi : i < A.slots.length)
+    (hj : j < A.slots.length) {yi yj : Option ASlot} {s' : State} {A' : AState}
+    (hs1 : s'.slots = (s.slots.set i (yi.map handleOf)).set j (yj.map handleOf)) (hs2 : s'.opts = s.opts)
+    (hA1 : A'.slots = (A.slots.set i yi).set j yj) (hA2 : A'.opts = A.opts)
+    (hpi : ∀ c, yi = some (ASlot.mk .pdu c) → c ≠ []) (hpj : ∀ c, yj = some (ASlot.mk .pdu c) → c ≠ [])
+    (hh : SegRep s'.heap (optSeg yi ++ (optSeg yj ++ rootSegs ((A.slots.set i none).set j none))))
+    (hn : A'.next = s'.heap.cells.length) : Rep s' A' := by
+  refine ⟨?_, ?_, ?_, hn, ?_⟩
+  · rw [hs1, hA1, List.map_set, List.map_set, ← hr.slots]
+  · show PduNe A'.slots
+    rw [hA1]; exact PduNe.set (PduNe.set hr.pdu_ne i _ hpi) j _ hpj
+  · rw [hA1]; exact hh.perm (rootSegs_two A.slots hij hi hj yi yj).symm
+  · rw [hs2, hA2]; exact hr.opts
+
+/-- writing back the handle a slot already has -/
+theorem Rep.slots_set_same {s : State} {A : AState} (hr : Rep s A) {j : Nat} {sl : ASlot} (hsl : A.slot? j = some sl)
+    {c' : Chain} (hhd : hd c' = hd sl.chain) (hne : c' ≠ []) :
+    s.slots.set j (some (handleOf { sl with chain := c' })) = s.slots := by
+  obtain ⟨hi, e⟩ := slot?_some hsl
+  have h1 : s.slots[j]? = some (some (handleOf sl)) := by rw [hr.slot_get, List.getElem?_eq_getElem hi, e]; rfl
+  obtain ⟨hj, e2⟩ := List.getElem?_eq_some_iff.mp h1
+  rw [handleOf_congr hhd hne, ← e2, List.set_getElem_self]
+
+theorem pduSlot_spec {s : State} {A : AState} (hr : Rep s A) (i : Nat) :
+    pduSlot s i = (A.pduChain i).bind hd ∧ (∀ c, A.pduChain i = some c → c ≠ [] ∧ A.slot? i = some ⟨.pdu, c⟩) := by
+  constructor
+  · unfold pduSlot AState.pduChain AState.slot?
+    rw [hr.slot_get]
+    cases h : A.slots[i]? with
+    | none => rfl
+    | some o =>
+      cases o with
+      | none => rfl
+      | some sl =>
+        obtain ⟨k, c⟩ := sl
+        cases k with
+        | pkt => rfl
+        | pdu =>
+          cases c with
+          | nil => exact absurd rfl (hr.pdu_ne i [] h)
+          | cons x r => rfl
+  · intro c hc
+    unfold AState.pduChain at hc
+    split at hc
+    · next c' hsl =>
+      cases hc
+      exact ⟨hr.pdu_ne i c (slot?_eq hsl), hsl⟩
+    · cases hc
+
+theorem pktSlot_spec {s : State} {A : AState} (hr : Rep s A) (i : Nat) :
+    pktSlot s i = (A.pktChain i).map hd ∧ (∀ c, A.pktChain i = some c → A.slot? i = some ⟨.pkt, c⟩) := by
+  constructor
+  · unfold pktSlot AState.pktChain AState.slot?
+    rw [hr.slot_get]
+    cases h : A.slots[i]? with
+    | none => rfl
+    | some o =>
+      cases o with
+      | none => rfl
+      | some sl =>
+        obtain ⟨k, c⟩ := sl
+        cases k with
+        | pkt => rfl
+        | pdu =>
+          cases c with
+          | nil => exact absurd rfl (hr.pdu_ne i [] h)
+          | cons x r => rfl
+  · intro c hc
+    unfold AState.pktChain at hc
+    split at hc
+    · next c' hsl => cases hc; exact hsl
+    · cases hc
+
+theorem sim_del {s : State} {A : AState} (hr : Rep s A) (i : Nat) : Sim s A (.del i) := by
+  unfold Sim
+  simp only [step, AState.step]
+  cases hsl : A.slot? i with
+  | none =>
+    have : s.slots[i]? = none ∨ s.slots[i]? = some none := by
+      rw [hr.slot_get]
+      unfold AState.slot? at hsl
+      cases h : A.slots[i]? with
+      | none => exact Or.inl rfl
+      | some o =>
+        cases o with
+        | none => exact Or.inr rfl
+        | some sl => rw [h] at hsl; cases hsl
+    rcases this with h | h <;> simp [h]
+  | some sl =>
+    obtain ⟨hi, e⟩ := slot?_some hsl
+    have hg : s.slots[i]? = some (some (handleOf sl)) := by rw [hr.slot_get, List.getElem?_eq_getElem hi, e]; rfl
+    have h0 := heap_out_slot hr hsl
+    obtain ⟨h1, hl⟩ := deletePtr_spec h0
+    have hfin : ∀ (s' : State), s'.heap = deletePtr s.heap (hd sl.chain) → s'.slots = s.slots.set i none → s'.opts = s.opts →
+        Rep s' (A.setSlot i none) := by
+      intro s' e1 e2 e3
+      apply hr.intro1 hi (y := none) (A' := A.setSlot i none) e2 e3 rfl rfl (by intro c hc; cases hc)
+      · rw [e1]; exact h1
+      · rw [e1, hl]; exact hr.next
+    obtain ⟨k, c⟩ := sl
+    cases k with
+    | pkt =>
+      simp only [hg, handleOf_pkt]
+      exact hfin _ rfl rfl rfl
+    | pdu =>
+      cases c with
+      | nil => exact absurd rfl (hr.pdu_ne i [] (slot?_eq hsl))
+      | cons x r =>
+        simp only [hg, handleOf_pdu]
+        exact hfin _ rfl rfl rfl
+
 end Tins.Own
